@@ -316,9 +316,14 @@ impl Consume for SenderFlowState {
     /// does not have any effect. Thus, this IS cancel safe.
     async fn consume(&self, item: Self::Item) -> Self::Outcome {
         loop {
+            // Create the `Notified` future before looking at the credit: a `Notified`
+            // receives `notify_waiters()` wake-ups from the moment it is created, so a
+            // flow that is applied between the failed check and the `.await` below is
+            // not missed.
+            let notified = self.notifier.notified();
             match consume_link_credit(&self.state().lock, item) {
                 Ok(outcome) => return outcome,
-                Err(_) => self.notifier.notified().await, // **NOT** cancel safe
+                Err(_) => notified.await, // **NOT** cancel safe
             }
         }
     }
